@@ -82,7 +82,7 @@ def canon(lines):
 
 def run_one(scenario):
     text = "\n".join(scenario) + "\n"
-    rc, out, err = core.run_harness("regconc", text, timeout=120)
+    rc, out, err = core.run_harness("regconc", text, timeout=15)
     if rc != 0:
         return {"scenario": scenario, "impl": out, "model": [], "schedule": [], "status": "END crash rc=%d %s" % (rc, err[-200:]), "model_end": "END ?"}
     sched = next((l for l in out if l.startswith("SCHEDULE")), "SCHEDULE")
